@@ -114,7 +114,8 @@ def _brief(cfg):
 def wl_C07(rng, w, cfg, index):
     cfg = dict(cfg)
     wts = dict(cfg.get('weights') or {})
-    for k in ('remove', 'replace', 'replace_other', 'fwd', 'dot_none', 'remove_foreign', 'to_string_ic', 'check_ic'):
+    for k in ('remove', 'replace', 'replace_other', 'fwd', 'dot_none', 'remove_foreign', 'to_string_ic', 'check_ic', 'readd',
+              'remove_stale'):
         wts[k] = 0.0
     wts['add_bad'] = 2.5
     cfg['weights'] = wts
@@ -128,6 +129,7 @@ def wl_C10(rng, w, cfg, index):
     cfg = dict(cfg)
     wts = dict(cfg.get('weights') or {})
     wts.update({'add_bad': 3.0, 'add_foreign': 0.8, 'attr_bad': 0.8, 'value_bad': 0.6, 'remove_foreign': 0.6, 'fwd': 1.0,
+                'remove_stale': 0.8, 'replace': 1.5, 'add_to_leaf': 0.5,
                 'to_string': 1.5, 'check': 0.6, 'to_string_ic': 0.0, 'check_ic': 0.0})
     cfg['weights'] = wts
     cfg['p_ic'] = 0.0
@@ -334,7 +336,7 @@ def string_positions():
 def wl_C16(rng, w, cfg, index):
     cfg = dict(cfg)
     ic_reads = rng.random() < 0.4
-    cfg['p_ic'] = 0.0
+    cfg['p_ic'] = 0.3 if rng.random() < 0.4 else 0.0
     wts = dict(cfg.get('weights') or {})
     wts.update({'to_string': 0.3, 'to_string_ic': 0.0, 'check': 0.0, 'check_ic': 0.0, 'read': 0.0, 'deep': 1.0})
     cfg['weights'] = wts
@@ -558,6 +560,15 @@ def wl_C15(rng, w, cfg, index):
             g, b = spec.element_value_exemplars(name)
             if r < 0.35 and g:
                 val = rng.choice(b) if (b and rng.random() < 0.15) else rng.choice(g)
+                if exA and rng.random() < 0.35:
+                    # the same number again in another Python type (1 -> 1.0, 2.0 -> 2): equal but not the same
+                    cur = A.children[exA[0]].value
+                    if isinstance(cur, bool):
+                        pass
+                    elif isinstance(cur, int):
+                        val = float(cur)
+                    elif isinstance(cur, float) and cur == int(cur):
+                        val = int(cur)
                 step = 'set-child-value'
                 if exA:
                     ea = {'op': 'VALUE_SET', 'a': 0, 'p': ['dA', exA[0]], 'value': val}
@@ -580,13 +591,27 @@ def wl_C15(rng, w, cfg, index):
                     ea = {'op': 'READ', 'a': 0, 'p': ['dA'], 'which': 'children_unordered'}   # explicit no-op
                 eb = {'op': 'DOT_SET', 'a': 1, 'p': ['dB'], 'name': name, 'v': {'kind': 'none'}}
             else:
-                # reads
-                yield {'op': 'DOT_GET', 'a': 1, 'p': ['dB'], 'name': name}
+                # reads, on either document
+                d = rng.choice(['dA', 'dB'])
+                yield {'op': 'DOT_GET', 'a': 1, 'p': [d], 'name': name}
                 if table and rng.random() < 0.5:
-                    yield {'op': 'ATTR_GET', 'a': 1, 'p': ['dB'], 'name': spec.py_attr_name(rng.choice(table)[0])}
+                    yield {'op': 'ATTR_GET', 'a': 1, 'p': [d], 'name': spec.py_attr_name(rng.choice(table)[0])}
                 continue
+            if rng.random() < 0.3:
+                # mixed rendering: this step is performed through the explicit API on document B as well
+                eb = dict(ea, p=['dB'] + ea['p'][1:], a=1)
+                if eb['op'] in ('VALUE_SET', 'REPLACE', 'REMOVE') and not exB:
+                    eb = None
+                elif eb['op'] == 'VALUE_SET':
+                    eb['p'] = ['dB', exB[0]]
+                elif eb['op'] in ('REPLACE', 'REMOVE'):
+                    eb['i'] = exB[0]
+                if eb is None:
+                    continue
             yield {'op': 'PAIR', 'step': step + ':' + name, 'first': rng.choice(['explicit', 'shortcut']),
                    'explicit': [ea], 'shortcut': [eb]}
+            if rng.random() < 0.35:
+                yield {'op': 'DOT_GET', 'a': 1, 'p': [rng.choice(['dA', 'dB'])], 'name': name}
         if rng.random() < 0.6:
             # supply what is missing on both surfaces alike (explicit adds on A, dot assignment on B)
             m = spec.model_for_element(elem)
@@ -660,7 +685,13 @@ def wl_C18(rng, w, cfg, index):
                 n = rng.choice(nested_checked)
                 p = w.path_of(n)
                 m = spec.model_for_element(n.name)
-                if rng.random() < 0.6:
+                if n.children and rng.random() < 0.3:
+                    i = rng.randrange(len(n.children))
+                    if rng.random() < 0.5:
+                        yield {'op': 'REPLACE', 'a': 0, 'p': p, 'i': i, 'c': kit.childspec(n.children[i].name, opaque=True)}
+                    else:
+                        yield {'op': 'REMOVE', 'a': 0, 'p': p, 'i': i}
+                elif rng.random() < 0.6:
                     comp = kit.compatible(n, m.alpha)
                     if comp:
                         yield {'op': 'ADD', 'a': 0, 'p': p, 'c': kit.childspec(rng.choice(comp), opaque=True)}
@@ -675,6 +706,11 @@ def wl_C18(rng, w, cfg, index):
                 break
             n = rng.choice(unchecked)
             p = w.path_of(n)
+            det = [k for k, x in enumerate(w.removed) if x.parent is None]
+            if det and rng.random() < 0.3:
+                # a child that was removed / replaced out of another (possibly checked) element earlier
+                yield {'op': 'ADD', 'a': 0, 'p': p, 'reuse': rng.choice(det), 'c': {'name': w.removed[det[0]].name}}
+                continue
             if r < 0.55:
                 # any class as child, any number, any order
                 name = rng.choice(spec.ALL_ELEMENTS) if rng.random() < 0.5 else rng.choice(model.alpha)
@@ -861,6 +897,20 @@ def wl_C20(rng, w, cfg, index):
         at = kit.valid_attrs(elem, 2)
         for k, v in at.items():
             yield {'op': 'ATTR_SET', 'a': 0, 'p': [doc], 'name': k, 'value': v}
+        # values of every member type of the union types (font-size: number and CSS name), on a text child if any
+        if rng.random() < 0.7:
+            fs = [a for a in spec.attributes_of_element(elem) if a in ('font-size', 'number')]
+            for a in fs[:1]:
+                g, _b = spec.exemplars(spec.attributes_of_element(elem)[a]['type'])
+                nums = [x for x in g if isinstance(x, float)] or g
+                if nums:
+                    yield {'op': 'ATTR_SET', 'a': 0, 'p': [doc], 'name': spec.py_attr_name(a), 'value': rng.choice(nums)}
+        # validate while (probably) incomplete: the refusal is part of the expected result
+        yield {'op': 'TO_STRING', 'a': 0, 'p': [doc], 'ic': False}
+        req = [a for a, d in spec.attributes_of_element(elem).items() if d['required'] and a in root.attrs and gen._attr_usable(a)]
+        if req and rng.random() < 0.6:
+            yield {'op': 'ATTR_SET', 'a': 0, 'p': [doc], 'name': spec.py_attr_name(req[0]), 'value': None}
+            yield {'op': 'TO_STRING', 'a': 0, 'p': [doc], 'ic': False}
         yield from gen.complete(kit, 0, [doc], root)
         yield {'op': 'TO_STRING', 'a': 0, 'p': [doc], 'ic': False}
         if rng.random() < 0.4:
@@ -870,3 +920,51 @@ def wl_C20(rng, w, cfg, index):
             yield {'op': 'REMOVE', 'a': 0, 'p': [doc], 'i': 0}
             yield {'op': 'CHECK', 'a': 0, 'p': [doc]}
     return program(), {'elements': [elem]}
+
+
+# ---------------------------------------------------------------------------------- C19: union workload, high fault rate
+def wl_C19(rng, w, cfg, index):
+    cfg = dict(cfg)
+    wts = dict(cfg.get('weights') or {})
+    wts.update({'weird': 1.5, 'add_to_leaf': 0.8, 'add_bad': 2.5, 'add_foreign': 0.8, 'attr_bad': 0.8, 'value_bad': 0.6,
+                'remove_stale': 0.5, 'readd': 0.8})
+    for k in ('add_bad', 'add_foreign', 'attr_bad', 'value_bad', 'weird'):
+        wts[k] = max(wts.get(k, 0), 0.6)
+    cfg['weights'] = wts
+    if rng.random() < 0.15:
+        # any of the 441 classes as root (types with namespaced attributes included)
+        kit = Kit(rng, w, cfg)
+        elem = spec.ALL_ELEMENTS[index % len(spec.ALL_ELEMENTS)]
+
+        def program():
+            cs = {'name': elem, 'value': gen.default_value(elem), 'attrs': {}, 'xsd_check': True}
+            if rng.random() < 0.3:
+                cs['value'] = rng.choice([True, False, 1e-05, [], {}, '', None, 0])
+            yield {'op': 'NEW', 'a': 0, 'doc': 'd0', 'c': cs}
+            if 'd0' not in w.docs:
+                return
+            for _ in range(rng.randint(1, 6)):
+                r = rng.random()
+                if r < 0.3:
+                    yield {'op': 'ADD', 'a': 0, 'p': ['d0'], 'c': kit.childspec(rng.choice(spec.ALL_ELEMENTS), opaque=True)}
+                elif r < 0.6:
+                    table = list(spec.attributes_of_element(elem))
+                    name = spec.py_attr_name(rng.choice(table)) if table and rng.random() < 0.7 else rng.choice(['bogus', 'name', 'level'])
+                    yield {'op': 'ATTR_SET', 'a': 0, 'p': ['d0'], 'name': name, 'value': rng.choice(['x', 1, True, None, 2.5, 'yes'])}
+                elif r < 0.75:
+                    yield {'op': 'VALUE_SET', 'a': 0, 'p': ['d0'], 'value': rng.choice([True, False, 1e-05, [], '', 'a', 3, 2.5])}
+                elif r < 0.85:
+                    yield {'op': 'ATTR_GET', 'a': 0, 'p': ['d0'], 'name': rng.choice(['id', 'bogus', 'type', 'default_x'])}
+                else:
+                    yield {'op': 'TO_STRING', 'a': 0, 'p': ['d0'], 'ic': rng.random() < 0.3}
+            if rng.random() < 0.3:
+                yield {'op': 'FAULT', 'kind': 'stdout.closed', 'params': {'on': True}}
+                yield {'op': 'TO_STRING', 'a': 0, 'p': ['d0'], 'ic': True}
+        return program(), {'elements': [elem], 'shape': 'any-class'}
+    prog, info = wl_history(rng, w, cfg, index)
+    if rng.random() < 0.2:
+        def with_closed():
+            yield {'op': 'FAULT', 'kind': 'stdout.closed', 'params': {'on': True}}
+            yield from prog
+        return with_closed(), info
+    return prog, info
